@@ -487,7 +487,7 @@ func buildEvidence(prop, tier string, seed int, runs []*oneRun, pi propIndex, re
 		samples = append(samples, "no completed path was sampled")
 	}
 	keys := func(m map[string]bool) []string {
-		var out []string
+		out := []string{}
 		for k := range m {
 			out = append(out, k)
 		}
